@@ -177,6 +177,25 @@ def run_shard(ctx, shard):
             ctx.run_case({'grid': g})
             if i == shard['lo']:
                 ctx.sample({'grid': g})
+    elif shard['kind'] == 'sparse':
+        # big pages with many separate groups (words, dashes, small boxes that do not touch each other)
+        rng = rng_for(ctx.seed, ID, shard['name'])
+        toks = ['-', '--', '|', '+', 'ab', 'k', '+-+', '-+-', '|-', 'a-b', 'q7']
+        for i in range(shard['n']):
+            cols = rng.randint(3, 14)
+            nrows = rng.randint(3, 14)
+            grid = []
+            for y in range(nrows):
+                row = ''
+                for x in range(cols):
+                    t = rng.choice(toks) if rng.random() < 0.8 else ''
+                    row += t.ljust(5)
+                grid.append(row.rstrip())
+                grid.append('')
+            ctx.run_case({'grid': grid})
+            ctx.tag('sparse_pages')
+            if i == 0:
+                ctx.sample({'grid': grid[:6]})
     elif shard['kind'] == 'boxes':
         # 1..3 boxes of + - | planted on a canvas, then a few random overwrites (ladders, gaps, overhangs, labels)
         rng = rng_for(ctx.seed, ID, shard['name'])
@@ -247,6 +266,7 @@ def execute(run):
         shards += exh_shards(3, 3, per=4096, step=7)
         shards += [{'kind': 'rand', 'name': 'rand-%d' % i, 'n': 1500} for i in range(16)]
         shards += [{'kind': 'boxes', 'name': 'boxes-%d' % i, 'n': 1500} for i in range(8)]
+        shards += [{'kind': 'sparse', 'name': 'sparse-%d' % i, 'n': 150} for i in range(8)]
         exhaustive_sizes = sizes
     else:
         sizes = [(1, 1), (2, 1), (1, 2), (2, 2), (3, 2), (2, 3), (3, 3), (4, 2), (2, 4), (8, 1), (1, 8), (5, 2), (2, 5), (4, 3), (3, 4)]
@@ -258,6 +278,7 @@ def execute(run):
         shards += exh_shards(5, 3, per=8192, step=16411)
         shards += [{'kind': 'rand', 'name': 'rand-%d' % i, 'n': 12000} for i in range(32)]
         shards += [{'kind': 'boxes', 'name': 'boxes-%d' % i, 'n': 12000} for i in range(16)]
+        shards += [{'kind': 'sparse', 'name': 'sparse-%d' % i, 'n': 1500} for i in range(16)]
         exhaustive_sizes = sizes
     run.extra_cov['exhaustive_scopes'] = ['all grids over {space,-,|,+} of size %dx%d' % s for s in exhaustive_sizes]
     run.extra_cov['exhaustive'] = False
